@@ -59,10 +59,25 @@ async def _main(loop, params, res):
     requests = params["requests"]
     outcomes = [None] * len(requests)
     checks_at_return = []
+    undeploy_returns = []  # (request index, {name: instance registered when the request was issued}, log length at return)
+    issued_at = {}
+    made = []
     loc = ExecutionLocation(name="loc0", deployment="A")
+
+    def registered(only=None):
+        snap = {}
+        for n, conn in dm.deployments_map.items():
+            if only is not None and n != only:
+                continue
+            if isinstance(conn, FutureConnector):
+                conn = conn.connector
+            if conn is not None and hasattr(conn, "instance_id"):
+                snap[n] = conn.instance_id
+        return snap
 
     async def do(i, req):
         kind, name = req[0], (req[1] if len(req) > 1 else None)
+        issued_at[i] = len(issued_at)
         try:
             if kind == "deploy":
                 await dm.deploy(dep_config(name, topo, lazy, fail))
@@ -73,9 +88,13 @@ async def _main(loop, params, res):
                                                  f"deploy({name}) returned while the registered connector instance "
                                                  f"#{conn.instance_id} has not finished deploying"))
             elif kind == "undeploy":
+                snap = registered(name)
                 await dm.undeploy(name)
+                undeploy_returns.append((i, snap, len(fakes.LOG)))
             elif kind == "undeploy_all":
+                snap = registered()
                 await dm.undeploy_all()
+                undeploy_returns.append((i, snap, len(fakes.LOG)))
             elif kind == "use":
                 conn = dm.get_connector(name)
                 if conn is None:
@@ -89,7 +108,6 @@ async def _main(loop, params, res):
     loop.mute = False
     remaining = list(range(len(requests)))
     tasks = []
-    made = []
     while remaining:
         c = loop.ctl.choose(len(remaining), ("req", len(remaining)), free=True)
         i = remaining.pop(c)
@@ -113,6 +131,8 @@ async def _main(loop, params, res):
     res["outcomes"] = outcomes
     res["made"] = made
     res["returned_checks"] = checks_at_return
+    res["undeploy_returns"] = undeploy_returns
+    res["issued_at"] = issued_at
     res["live_after_final"] = sorted(dm.deployments_map)
     res["wrapper_inner"] = {c.instance_id: getattr(getattr(c, "connector", None), "instance_id", None)
                             for c in FakeConnector.instances if isinstance(c, FakeWrapper)}
@@ -136,7 +156,9 @@ def judge(params, ex, res):
     state = {}  # instance -> "deploying" | "deployed" | "undeploying" | "undeployed" | "failed"
     name_of = {}
     undeploy_count = {}
+    state_at = {0: {}}
     for pos, ev in enumerate(log):
+        state_at[pos + 1] = state_at[pos]
         kind = ev[0]
         if kind not in ("deploy_start", "deploy_end", "deploy_raise", "undeploy_start", "undeploy_end", "run"):
             continue
@@ -177,6 +199,30 @@ def judge(params, ex, res):
         elif kind == "run":
             if state.get(inst) != "deployed":
                 fails.append((f"{base}|use-before-deployed|{reqs}", f"operation reached {name}#{inst} in state {state.get(inst)}; log {log[:pos + 1]}"))
+        state_at[pos + 1] = dict(state)
+    # an undeploy / undeploy_all request that returns normally leaves nothing it covered deployed: every connector
+    # registered when the request started (deployed or still deploying) is no longer live at the return, unless a
+    # deployment wrapping it is live at that moment or a deploy request started after this one
+    issued = res.get("issued_at", {})
+    for i, snap, at in res.get("undeploy_returns", []):
+        later_deploy = any(r[0] in ("deploy", "use") and issued.get(j, 1 << 30) > issued[i]
+                           for j, r in enumerate(params["requests"]))
+        if later_deploy:
+            continue
+        st = state_at[at]
+        for name, inst in snap.items():
+            if st.get(inst) not in ("deploying", "deployed"):
+                continue
+            # (a wrapper that another request is still undeploying counts: that request undeploys the inner one next)
+            if any(inner == inst and st.get(w) in ("deploying", "deployed", "undeploying") for w, inner in winner.items()):
+                continue
+            if any(TOPOLOGIES[topo][n][1] == name and s in ("deploying", "deployed", "undeploying")
+                   for j, s in st.items() for n in [name_of[j]]):
+                continue
+            fails.append((f"{base}|undeploy-returned-leaving-live|{reqs}",
+                          f"request {params['requests'][i]} returned normally while {name}#{inst}, registered when it "
+                          f"started, is still {st.get(inst)} and nothing wrapping it is live; requests {res['made']}; "
+                          f"log {log[:at]}"))
     for kind, msg in res["returned_checks"]:
         fails.append((f"{base}|{kind}|{reqs}", msg + f"; requests in issue order {res['made']}; log {res['mid_log']}"))
     if res["pending_requests"]:
